@@ -319,6 +319,22 @@ fn compute_topic_filter_properties(topic: &str) -> TopicFilterProperties {
     properties
 }
 
+// the static part of the topic filter rules (grammar, length, and no-local on a shared subscription): what can be
+// checked at submission, without knowing what the server supports
+pub(crate) fn is_valid_topic_filter(filter: &str, no_local: Option<bool>) -> bool {
+    let topic_filter_properties = compute_topic_filter_properties(filter);
+
+    if !topic_filter_properties.is_valid {
+        return false;
+    }
+
+    if topic_filter_properties.is_shared && no_local == Some(true) {
+        return false;
+    }
+
+    true
+}
+
 pub(crate) fn is_valid_topic_filter_internal(filter: &str, context: &OutboundValidationContext, no_local: Option<bool>) -> bool {
     let topic_filter_properties = compute_topic_filter_properties(filter);
 
